@@ -99,3 +99,47 @@ func OpenSearcher(path string) (zoekt.Searcher, error) {
 	}
 	return s, nil
 }
+
+// WriteSimpleShardWithSymbols is WriteSimpleShard with symbol sections: every occurrence of the words "beta" and
+// "alpha" becomes a symbol (so that the symbol sections of the shard are populated and sym: queries have matches).
+func WriteSimpleShardWithSymbols(path string, r Repo) error {
+	b, err := index.NewShardBuilder(&zoekt.Repository{Name: r.Name, ID: r.ID, Metadata: r.Metadata,
+		Branches: []zoekt.RepositoryBranch{{Name: "HEAD", Version: "v1"}}})
+	if err != nil {
+		return err
+	}
+	for _, d := range r.Docs {
+		doc := index.Document{Name: d.Name, Content: d.Content, Branches: []string{"HEAD"}}
+		for _, w := range []string{"alpha", "beta"} {
+			_ = w
+		}
+		i := 0
+		for i < len(d.Content) {
+			matched := false
+			for _, w := range []string{"alpha", "beta"} {
+				if i+len(w) <= len(d.Content) && string(d.Content[i:i+len(w)]) == w {
+					doc.Symbols = append(doc.Symbols, index.DocumentSection{Start: uint32(i), End: uint32(i + len(w))})
+					doc.SymbolsMetaData = append(doc.SymbolsMetaData, &zoekt.Symbol{Sym: w, Kind: "function", Parent: "p", ParentKind: "class"})
+					i += len(w)
+					matched = true
+					break
+				}
+			}
+			if !matched {
+				i++
+			}
+		}
+		if err := b.Add(doc); err != nil {
+			return err
+		}
+	}
+	f, err := os.Create(path)
+	if err != nil {
+		return err
+	}
+	if err := b.Write(f); err != nil {
+		f.Close()
+		return err
+	}
+	return f.Close()
+}
